@@ -57,11 +57,13 @@ func VerifC04Tuple() {
 	}
 	verifC04HashLow = func(prefix uint32, key []byte) (uint64, bool) {
 		for i := range keys {
-			if len(key) == len(keys[i]) && (len(key) == 0 || key[0] == keys[i][0]) {
+			if bytes.Equal(key, keys[i]) { // concrete keys: a concrete comparison
 				return low[i], true
 			}
 		}
-		return 0, false // a key that was never inserted reached the hash function
+		// the harness itself only hashes inserted keys, so this is the code under test
+		verifFail("C04.tuple: the hash function received a key that was never inserted (key bytes changed between Insert and hashBucket)")
+		return 0, false
 	}
 
 	b, err := NewBuilderSized("", 1, uint(vs))
